@@ -184,8 +184,9 @@ TCommit ==
             {[rev |-> ops[i].r, key |-> ops[i].k,
               type |-> IF AV(i) = TOMB THEN EvDelete
                        ELSE IF HasPend(p) /\ IsWrite(PendOf(p).op) THEN EvType(PendOf(p)) ELSE "ANYPUT",
-              val |-> IF AV(i) = TOMB THEN Unstar(Latest(ver[ops[i].k]).val) ELSE ops[i].v[4],
-              kvrev |-> IF AV(i) = TOMB THEN Latest(ver[ops[i].k]).rev ELSE ops[i].r]
+              \* a delete event carries the last live value before it
+              val |-> IF AV(i) = TOMB THEN Unstar(Latest({x \in ver[ops[i].k] : x.val # TOMB}).val) ELSE ops[i].v[4],
+              kvrev |-> IF AV(i) = TOMB THEN Latest({x \in ver[ops[i].k] : x.val # TOMB}).rev ELSE ops[i].r]
              : i \in {j \in vp : applied /\ res = "ok"}}
     /\ UNCHANGED <<cm, base, maxRet, seen, ws, rds, prefixes, cmax, expiring>>
 
